@@ -122,6 +122,13 @@ Theorem c13_orm_update_params : forall cols old attrs c, distinct_keys cols = tr
     end.
 Proof. exact orm_update_params_get. Qed.
 Print Assumptions c13_orm_update_params.
+(* the bulk UPDATE by primary key (session.execute(update(Entity), [mappings]), bulk_update_mappings) sends
+   every key of the mapping as given - an explicit None included - so by the executemany theorem an explicit
+   None is stored as NULL and onupdate fires only for the columns a mapping omits *)
+Theorem c13_orm_bulk_update_params : forall cols m c, distinct_keys cols = true -> In c cols ->
+  get (ckey c) (orm_bulk_update_params cols m) = get (ckey c) m.
+Proof. exact orm_bulk_update_params_get. Qed.
+Print Assumptions c13_orm_bulk_update_params.
 (* records are executed in groups of equal key sets: every statement the unit of work emits satisfies the
    precondition of c13_default_iff_omitted_executemany_guarded *)
 Theorem c13_orm_groups_homogeneous : forall cols p0 ps g t, take_group cols p0 ps = (g, t) ->
